@@ -191,17 +191,18 @@ class RecordingApp:
     def __init__(self):
         self.seen = {}       # REMOTE_ADDR -> record
         self.plans = {}      # REMOTE_ADDR -> concrete response plan
+        self.next_plans = {}  # REMOTE_ADDR -> concrete plan of the response to the further request /next
 
     def __call__(self, environ, start_response):
         from ioflo.aio.http import httping
         ca = environ.get("REMOTE_ADDR")
         if environ.get("PATH_INFO") == "/next":        # the further request on the same connection
-            start_response("200 OK", [("Content-Length", str(len(NEXT_BODY)))])
-            return [NEXT_BODY]
-        body = environ["wsgi.input"].read()
-        self.seen.setdefault(ca, []).append({"environ": {k: v for k, v in environ.items() if not k.startswith("wsgi.")},
-                                             "scheme": environ.get("wsgi.url_scheme"), "body": body})
-        plan = self.plans[ca]
+            plan = self.next_plans[ca]
+        else:
+            body = environ["wsgi.input"].read()
+            self.seen.setdefault(ca, []).append({"environ": {k: v for k, v in environ.items() if not k.startswith("wsgi.")},
+                                                 "scheme": environ.get("wsgi.url_scheme"), "body": body})
+            plan = self.plans[ca]
         if plan["shape"] == "error":
             err = httping.HTTPError(plan["status"], reason=plan["reason"], title="t", detail="d", headers=dict(plan["headers"]))
             plan["render"] = err.render()
@@ -264,9 +265,7 @@ class RoundAdapter:
             if name == "ServerService":
                 r = args[0]
                 for i, (v, p) in enumerate(zip(self.variants, self.patrons)):
-                    v.resp = {"status": r["status"], "reason": REASONS[r["status"]], "shape": r["shape"], "how": i + len(r["pieces"]),
-                              "headers": [(v.hname[tuple(h["name"])], conc(h["value"], "header", v.rng)) for h in r["heads"]],
-                              "pieces": [conc_raw(pc, v.rng) for pc in r["pieces"]]}
+                    v.resp = self.plan(v, r, i)
                     self.app.plans[p.connector.ca] = v.resp
                 for _ in range(12):
                     self.valet.serviceAll()
@@ -280,17 +279,20 @@ class RoundAdapter:
                         p.serviceAll()
                         if p.responses:
                             break
-                return {"stage": "done", "got": self.project_got(expected["got"])}
+                return {"stage": "done", "got": self.project_got(expected["got"], 0, "resp")}
             if name == "FollowUp":
                 from ioflo.aid.odicting import odict
-                for p in self.patrons:
+                f = args[0]
+                for i, (v, p) in enumerate(zip(self.variants, self.patrons)):
+                    v.follow = self.plan(v, f, i + 1)
+                    self.app.next_plans[p.connector.ca] = v.follow
                     p.request(method="GET", path="/next", qargs=odict(), headers={})
-                    for _ in range(10):
+                    for _ in range(14):
                         p.serviceAll()
                         self.valet.serviceAll()
                         if len(p.responses) >= 2:
                             break
-                return {"stage": "again", "next": self.project_next()}
+                return {"stage": "again", "follow": f, "next": self.project_got(expected["next"], 1, "follow")}
         raise NotImplementedError(name)
 
     # ---- projections: the first concretisation that disagrees (concretely or symbolically) is shown
@@ -364,15 +366,25 @@ class RoundAdapter:
         out["body"] = exp["body"] if decoded else abstract_raw(body)
         return out
 
-    def project_got(self, exp):
+    @staticmethod
+    def plan(v, r, i):
+        """one concretisation of the abstract response r"""
+        return {"status": r["status"], "reason": REASONS[r["status"]], "shape": r["shape"], "how": i + len(r["pieces"]),
+                "headers": [(v.hname[tuple(h["name"])], conc(h["value"], "header", v.rng)) for h in r["heads"]],
+                "pieces": [conc_raw(pc, v.rng) for pc in r["pieces"]]}
+
+    def project_got(self, exp, idx, which):
+        """the idx-th response every client was handed against the plan it was produced from"""
         first = None
         for v, p in zip(self.variants, self.patrons):
-            if len(p.responses) != 1:
-                self.detail = {"request": repr(v.kwargs()), "plan": repr(v.resp), "problem": "%d responses" % len(p.responses),
-                               "wire": repr(bytes(p.connector.cs.conn.s2c)[-400:]) if p.connector.cs else None}
+            if len(p.responses) != idx + 1:
+                self.detail = {"request": repr(v.kwargs()), "first plan": repr(v.resp), "plan": repr(getattr(v, which)),
+                               "problem": "%d responses instead of %d" % (len(p.responses), idx + 1),
+                               "unread": repr(bytes(p.connector.rxbs)[:200]),
+                               "wire": repr(bytes(p.connector.cs.conn.s2c)[-500:]) if p.connector.cs else None}
                 return {"status": -len(p.responses) - 1}
-            r = p.responses[0]
-            plan = v.resp
+            r = p.responses[idx]
+            plan = getattr(v, which)
             body = bytes(r["body"])
             want = plan.get("render") if plan["shape"] == "error" else b"".join(plan["pieces"])
             a = {"status": r["status"] if not r["errored"] else -1,
@@ -392,6 +404,8 @@ class RoundAdapter:
             for n, val in plan["headers"]:
                 if r["headers"].get(n.lower()) != val:
                     bad.append("header " + n)
+            if which == "follow" and str((r.get("request") or {}).get("path")) != "/next":
+                bad.append("matched to the wrong request")
             if bad and replay.diff(replay.norm(exp), replay.norm(a), "") is None:
                 a["reason"] = ("concrete-mismatch",) + tuple(bad)
             if first is None:
@@ -401,27 +415,6 @@ class RoundAdapter:
                                "response": repr({k: r[k] for k in ("status", "reason", "headers", "body", "errored", "error")})}
                 return a
         return first
-
-    def project_next(self):
-        want = {"status": 200, "reason": ("O", "K"), "heads": frozenset(), "body": abstract_raw(NEXT_BODY)}
-        for v, p in zip(self.variants, self.patrons):
-            if len(p.responses) != 2:
-                self.detail = {"request": repr(v.kwargs()), "plan": repr(v.resp), "problem": "%d responses after the further request" % len(p.responses),
-                               "unread": repr(bytes(p.connector.rxbs)[:200])}
-                return {"status": -len(p.responses) - 1}
-            r = p.responses[1]
-            a = {"status": r["status"] if not r["errored"] else -1,
-                 "reason": tuple("SP" if c == " " else c for c in (r["reason"] or "")),
-                 "heads": frozenset((tuple(k), abstract(val, "header")) for k, val in r["headers"].items()
-                                    if k not in ("content-length", "transfer-encoding", "server", "content-type", "date")),
-                 "body": abstract_raw(bytes(r["body"]))}
-            if str((r.get("request") or {}).get("path")) != "/next":
-                a["status"] = -2
-            if replay.diff(replay.norm(want), replay.norm(a), ""):
-                self.detail = {"request": repr(v.kwargs()), "plan": repr(v.resp), "first": repr(dict(p.responses[0]))[:400],
-                               "second": repr({k: r[k] for k in ("status", "reason", "headers", "body", "errored", "error")})}
-                return a
-        return want
 
     def close(self):
         with P.patched(self.net), P.quiet():
@@ -433,12 +426,12 @@ class RoundAdapter:
                 pass
 
 
-def cfg_text(family, qc, maxlen=2, maxitems=2, bodyitems=2, props=True):
+def cfg_text(family, qc, maxlen=2, maxitems=2, bodyitems=2, props=True, cross="some", allitems=2):
     q = lambda xs: "{%s}" % ", ".join('"%s"' % x for x in xs)
     s = ("SPECIFICATION Spec\nCONSTANTS\n  Methods = %s\n  QC = %s\n"
          '  FC = {"a", "SP", "&", "=", "+", "%%", "R", "HI"}\n  JC = {"a", "SP", "DQ", "BS", "LF", "HI"}\n'
          '  HC = {"a", "SP", "R", "HI"}\n  PC = {"a", "SP", "R", "%%", "+", "HI"}\n'
-         "  MaxLen = %d\n  MaxItems = %d\n  BodyItems = %d\n  Family = \"%s\"\nCHECK_DEADLOCK FALSE\n" % (q(METHODS), q(qc), maxlen, maxitems, bodyitems, family))
+         "  MaxLen = %d\n  MaxItems = %d\n  BodyItems = %d\n  AllItems = %d\n  Family = \"%s\"\n  Cross = \"%s\"\nCHECK_DEADLOCK FALSE\n" % (q(METHODS), q(qc), maxlen, maxitems, bodyitems, allitems, family, cross))
     if props:
         s += "INVARIANT RoundTrip\nINVARIANT NothingLeft\n"
     return s
@@ -450,7 +443,9 @@ CLASSES8 = ["a", "SP", "&", "=", "+", "%", "R", "HI"]
 
 def run_c30(ctx):
     ctx.rule = ("HttpRound.tla: RoundTrip model checked over the families query / body / path / head / resp and the product "
-                "(every method x every body kind x all queries of <= 2 items with values of <= 2 characters over the classes); "
+                "(every method x every body kind x all queries of <= 1 (quick) / 2 (thorough) items with values of <= 2 characters over the "
+                "classes); every ordered pair of response classes (fixed length, streamed, empty, bodiless, raised error) on one "
+                "persistent connection; "
                 "every path of the graph of the cover family (every value of <= 2 characters alone and every pair of values of "
                 "<= 1 character over 8 classes in query and form, JSON objects, raw bodies, paths, headers, every method, every "
                 "response shape) replayed on a real Patron and Valet in several concretisations per symbolic case; "
@@ -459,11 +454,12 @@ def run_c30(ctx):
     from concurrent.futures import ThreadPoolExecutor
     dot = env.subdir("c30") + "/cover.dot"
     pool = ThreadPoolExecutor(max_workers=2)
-    fut_cover = pool.submit(tlc.run, "HttpRound", cfg_text("cover", CLASSES8, props=False), spec_dir=SPEC_DIR, dump_dot=dot,
+    cross = ctx.pick("some", "all")
+    fut_cover = pool.submit(tlc.run, "HttpRound", cfg_text("cover", CLASSES8, props=False, cross=cross), spec_dir=SPEC_DIR, dump_dot=dot,
                             tag="c30g", coverage=False, workers=max(2, env.NCPU // 4), timeout=6 * 3600)
-    res = tlc.run("HttpRound", cfg_text("mc", ctx.pick(CLASSES4, CLASSES8), bodyitems=ctx.pick(1, 2)), spec_dir=SPEC_DIR, tag="c30mc",
+    res = tlc.run("HttpRound", cfg_text("mc", ctx.pick(CLASSES4, CLASSES8), bodyitems=ctx.pick(1, 2), cross=cross, allitems=ctx.pick(1, 2)), spec_dir=SPEC_DIR, tag="c30mc",
                   timeout=6 * 3600, workers=max(2, env.NCPU - env.NCPU // 4))
-    ctx.add_model(res, "HttpRound/mc", {"QC": ctx.pick(CLASSES4, CLASSES8), "MaxLen": 2, "MaxItems": 2, "BodyItems": ctx.pick(1, 2)})
+    ctx.add_model(res, "HttpRound/mc", {"QC": ctx.pick(CLASSES4, CLASSES8), "MaxLen": 2, "MaxItems": 2, "BodyItems": ctx.pick(1, 2), "AllItems": ctx.pick(1, 2), "Cross": cross})
     if not res.ok:
         ctx.diverge(Divergence("C30", "model", res.error_name or res.error, "HttpRound", "specification property violated in the model",
                                steps=[{"action": a, "state": s} for a, s in res.trace]))
